@@ -1,5 +1,5 @@
 import MuscleModel.Pulse.Ops
-import MuscleModel.Pulse.Proofs11
+import MuscleModel.Pulse.Proofs13
 
 /-!
 # C20 — Pulse callbacks fire for every due node and never before their time
@@ -10,14 +10,16 @@ correspondence run of engine `pn`.  `never` = `MUSCLE_TIME_NEVER`, `d`/`k` = fue
 value and speak about the runs that complete: `… = some _`).  A node's behaviour is a script: the time it
 answers next plus, per callback, a list of re-entrant actions (invalidate, change request, detach, attach).
 
-What is proved in full, for EVERY history and EVERY script (attach/detach from inside callbacks included):
-`never_early`, `fires_with_asked_time`, `fired_only_due_once_per_request` (soundness half of
-"fires iff due"), `fired_loses_request`, `sorted_insert`, `needsrecalc_reaches_root`, the local firing / asking rules; the tree invariant `Inv` is
-preserved by every public operation (destroy included) and by the whole pulse sweep with arbitrary scripts (`inv_preserved`),
-and by the `GetPulseTimeAux` sweep whose callbacks invalidate / attach / detach any node that is not itself in progress
-(`inv_preserved_gpt_sweep`); such a sweep leaves the tree settled (`gpt_sweep_settles`), reports a wake-up time at or before
-every stored time (`wakeup_never_late`) and leaves every due node reachable for `PulseAux` (`due_nodes_reachable`).  What is proved only in part is named `…_partial`, and the
-full statement is kept in the comment in front of it.
+What is proved in full, for EVERY history and EVERY script (attach/detach from inside callbacks included): `never_early`,
+`fires_with_asked_time`, `fired_loses_request`, `sorted_insert`, `needsrecalc_reaches_root`, the local firing / asking rules, and
+that the tree invariant `Inv` and the flagging invariant `V` are preserved by every public operation (destroy included) and by the
+whole pulse sweep (`inv_preserved`, `v_preserved`).
+Under explicitly stated disciplines, each with a necessity witness (`example`s at the end of the file):
+`inv_preserved_gpt_sweep`, `gpt_sweep_settles`, `wakeup_never_late`, `due_nodes_reachable`, `all_asked_after_sweep`, `reasked`
+(discipline: no `GetPulseTime` callback touches a node whose own `GetPulseTimeAux` is in progress) and `fires_iff_due`
+(additionally: `Pulse` callbacks only change requests).
+Still partial: `wakeup_is_min_partial` (exactness `≥`) and `fuel_irrelevant_partial` (termination measure); the comments in front of
+them say exactly what is missing.
 
 Finding `C20-lost-invalidate` (`corpus/C20/pn-regress-inprogress-invalidate.ops`) is repaired: `GetPulseTimeAux` makes a
 second pass when the node was invalidated during the first, and files a node that is invalid even then with aggregate
@@ -279,17 +281,9 @@ theorem skips_self_if_not_due (never d k : Nat) (w w' : World) (n now : Nat)
     ∃ w1, pulseLoop never d k w n now = some w1 ∧ pulseFinish never d w1 n = some w' :=
   pulseAux_skips_self never d k w w' n now hn h
 
-/-- FULL STATEMENT (DESIGN `fires_iff_due`): for a tree settled by `getPulseTime` and `t < never`,
-    `fired (pulse f root t) = { n below root | n.valid ∧ n.myTime ≤ t }`, each once, each with `(t, n.myTime)`.
-    PROVED: "⊆", "with the time it asked for", "at most once per standing request" (`fires_with_asked_time`, `never_early`,
-    `fired_loses_request`); the per-node rule (`fires_self_if_due`, `skips_self_if_not_due`); that a disciplined sweep leaves
-    the tree settled (`gpt_sweep_settles`) and hence every due node REACHABLE: all its ancestors have an aggregate time `≤ t`,
-    which is the loop condition of `PulseAux` and of `CallPulseAux` (this theorem for any settled tree, `due_nodes_reachable` for
-    the state after a sweep).  STILL MISSING: the induction over the pulse sweep that turns reachability into an entry of the log
-    ("a SCHEDULED child leaves its parent's list only by being visited"; with `Pulse` callbacks that invalidate or detach a due
-    node before its turn the statement is false as it stands, so it needs its own discipline).  Validated on every undisturbed
-    sweep of the correspondence run by the direct oracle (fired set = due set). -/
-theorem fires_iff_due_partial (never : Nat) (f : Forest) (root n t : Nat) (hs : Settled never f root)
+/-- in ANY settled tree every node whose stored time is `≤ t` is reachable for `PulseAux`: all its ancestors have an aggregate
+    time `≤ t`, the loop condition of `PulseAux` and of `CallPulseAux` -/
+theorem settled_due_reachable (never : Nat) (f : Forest) (root n t : Nat) (hs : Settled never f root)
     (hn : Desc f root n) (hdue : (f n).myTime ≤ t) :
     ∀ a, Desc f root a → Desc f a n → (f a).agg ≤ t := by
   intro a ha han
@@ -301,6 +295,47 @@ theorem fires_iff_due_partial (never : Nat) (f : Forest) (root n t : Nat) (hs : 
       filed := fun p c hp hc => hs.filed p c (desc_trans ha hp) hc }
   have := (settled_agg_le never f a n hsa han).2
   omega
+
+/-- `fires_iff_due` (DESIGN).  DISCIPLINE: the `Pulse` callbacks of the sweep only change requests (`PQuiet`: every queued `Pulse`
+    script consists of `setRequest` actions).  It is needed in some form: a `Pulse` callback that invalidates (or detaches, or cuts
+    off an ancestor of) a node that is due in the same sweep before its turn legitimately prevents its firing — first pair of
+    examples at the end of the file; the weakest sufficient discipline ("… does not touch a node that is due before its turn, nor
+    one of its ancestors") is not formalised.
+    After a disciplined `GetPulseTimeAux` sweep from a root (`managerGptC`, verdict `true`) the following `CallPulseAux(root, t)`,
+    `t < never`, fires EXACTLY the due nodes: every node below the root whose request stands and is `≤ t` gets a `Pulse(t, ·)`
+    entry (completeness), every entry of the sweep is such a `Pulse` of a node whose request stood and was due
+    (`never_early`, `fires_with_asked_time`), and every node fired has no standing request afterwards, so none fires twice on one
+    request (`fired_loses_request`). -/
+theorem fires_iff_due (never d k k2 : Nat) (w w1 w2 : World) (root now t m : Nat) (ht : t < never)
+    (hi : Inv never w.f) (hroot : (w.f root).parent = none)
+    (hg : managerGptC never d (k+1) w root now = some (w1, m, true))
+    (hq : PQuiet w1) (hp : managerPulse never d k2 w1 root t = some w2) :
+    ∃ l, w2.log = w1.log ++ l ∧
+      (∀ x, Desc w1.f root x → (w1.f x).valid = true → (w1.f x).myTime ≤ t → ∃ s, Event.P x t s ∈ l) ∧
+      (∀ e ∈ l, ∃ id s, e = .P id t s ∧ s ≤ t ∧ (w2.f id).valid = false) := by
+  obtain ⟨i1, s1, _⟩ := managerGptC_settles never d k w w1 root now m hg hi hroot
+  have hroot1 : (w1.f root).parent = none := by
+    have hcur : (w.f root).cur = none := hi.1.rootcur root hroot
+    have hun : ∀ y ∈ [root], Unfiled w.f y := by
+      intro y hy
+      have : y = root := by simpa using hy
+      subst this
+      exact ⟨by rw [hcur]; simp, by rw [hcur]; simp⟩
+    simp only [managerGptC] at hg
+    exact ((gptC_inv never d (k+1)).1 w w1 root now never m [] hg hi (by simp [Chain, hroot]) (by simp) hun).2.2.trans hroot
+  obtain ⟨l, e, comp⟩ := managerPulse_complete never d k2 w1 w2 root t ht hp i1 hq hroot1 s1
+  obtain ⟨l', e', snd, _⟩ := fired_loses_request never d k2 w1 w2 root t hp
+  have : l' = l := List.append_cancel_left (e'.symm.trans e)
+  subst this
+  exact ⟨l', e, comp, snd⟩
+
+/-- the same for any settled tree, however it was reached -/
+theorem fires_every_due_node (never d k : Nat) (w w' : World) (root t : Nat) (ht : t < never)
+    (h : managerPulse never d k w root t = some w') (hi : Inv never w.f) (hq : PQuiet w)
+    (hroot : (w.f root).parent = none) (hS : Settled never w.f root) :
+    ∃ l, w'.log = w.log ++ l ∧
+      ∀ x, Desc w.f root x → (w.f x).valid = true → (w.f x).myTime ≤ t → ∃ s, Event.P x t s ∈ l :=
+  managerPulse_complete never d k w w' root t ht h hi hq hroot hS
 
 /-! ## The wake-up time -/
 
@@ -328,19 +363,102 @@ theorem wakeup_is_min_partial (never d k : Nat) (w w' : World) (root now m : Nat
 
 /-! ## Asked again -/
 
-/-- FULL STATEMENT (DESIGN `reasked`): every fired node has `valid = false` afterwards (proved: `fired_loses_request`)
-    and is asked again by the next `getPulseTime` on its root.  PROVED HERE: the sweep asks every node it visits that has
-    no standing request — first thing, passing the time the node requested before — and it returns from a node only when
-    that node's NEEDSRECALC list is empty.  MISSING: that every node without a standing request is *visited*, i.e. sits in
-    the NEEDSRECALC list of its parent and so do all its ancestors (the marking component of `Inv`: `inv_preserved`, `inv_preserved_gpt_sweep`,
-    `needsrecalc_reaches_root`) — that needs "a non-root node without a standing request is flagged NEEDSRECALC" as a further
-    invariant, which is transiently false for a fired node until its `PulseAux` returns and is not proved yet. -/
-theorem reasked_partial (never d k : Nat) (w w' : World) (n now mn mn' : Nat)
+/-- the asking rule of one node: `GetPulseTimeAux` asks every node it visits that has no standing request — first thing, passing
+    the time the node requested before — and it returns from a node only when that node's NEEDSRECALC list is empty -/
+theorem asks_when_visited (never d k : Nat) (w w' : World) (n now mn mn' : Nat)
     (h : gptAux never d (k+1) w n now mn = some (w', mn')) :
     ((w.f n).valid = false → ∃ ret l, w'.log = w.log ++ [.G n now (w.f n).myTime ret] ++ l) ∧
     (∀ w1 w2 m1 m2, gptLoop never d k w1 n now m1 = some (w2, m2) → (w2.f n).recalc = []) :=
   ⟨fun hv => gptAux_asks never d k w w' n now mn mn' hv h,
    fun w1 w2 m1 m2 hl => gptLoop_empties never d k w1 w2 n now m1 m2 hl⟩
+
+/-! ## `reasked`
+
+Invariant `V` (`Pulse/Proofs12.lean`): a non-root node without a standing request is flagged NEEDSRECALC — at every step
+boundary; inside a node's own `PulseAux`, between its `Pulse` callback and its return, the node itself is excepted (that is the
+exception set of `VEx`, empty at operation boundaries). -/
+
+/-- `V` holds initially and is preserved by every public operation and by the whole pulse sweep with arbitrary scripts -/
+theorem v_init (never : Nat) : V (World.init never).f :=
+  fun x q _ hp _ => by simp [World.init, Node.fresh] at hp
+
+theorem v_preserved (never d k : Nat) (w w' : World) (r : Res) (o : Op)
+    (hg : ∀ root now, o ≠ .gpt root now) (hv : V w.f)
+    (h : applyOp never d k w o = some (w', r)) : V w'.f := by
+  cases o with
+  | attach c p =>
+    simp only [applyOp] at h
+    split at h
+    · cases h; exact hv
+    · simp only [Option.map_eq_some_iff] at h
+      obtain ⟨f', hf, he⟩ := h; cases he
+      exact VEx.step hv (putChild_vrel never d w.f p c f' hf)
+  | detach c =>
+    simp only [applyOp, Option.map_eq_some_iff] at h
+    obtain ⟨f', hf, he⟩ := h; cases he
+    simp only [detach] at hf
+    split at hf
+    · exact VEx.step hv (removeChild_vrel never d w.f _ c f' hf)
+    · cases hf; exact hv
+  | destroy c =>
+    simp only [applyOp, Option.map_eq_some_iff] at h
+    obtain ⟨f', hf, he⟩ := h; cases he
+    exact VEx.step hv (destroy_vrel never d w.f c f' hf)
+  | inval c clear =>
+    simp only [applyOp, Option.map_eq_some_iff] at h
+    obtain ⟨f', hf, he⟩ := h; cases he
+    exact VEx.step hv (invalidate_vrel never d w.f c clear f' hf)
+  | setReq c t => simp only [applyOp] at h; cases h; exact hv
+  | script g c acts => cases g <;> (simp only [applyOp] at h; cases h; exact hv)
+  | gpt root now => exact absurd rfl (hg root now)
+  | pulse root now =>
+    simp only [applyOp] at h
+    split at h
+    · cases h; exact hv
+    · simp only [Option.map_eq_some_iff] at h
+      obtain ⟨w1, hf, he⟩ := h; cases he
+      simp only [managerPulse] at hf
+      split at hf
+      · exact (pulse_V never d k).1 _ w _ root now hv hf
+      · cases hf; exact hv
+
+/-- after a disciplined `GetPulseTimeAux` sweep from a root, EVERY node below the root has a standing request again, and `V`
+    still holds.  (Discipline = verdict of `managerGptC`, see `inv_preserved_gpt_sweep`.  It is needed: a node that invalidates
+    itself in both passes is left without a request — second example below; the repaired code then reports wake-up time 0,
+    `lost_invalidate_live`.) -/
+theorem all_asked_after_sweep (never d k : Nat) (w w' : World) (root now m : Nat)
+    (h : managerGptC never d (k+1) w root now = some (w', m, true)) (hi : Inv never w.f) (hv : V w.f)
+    (hroot : (w.f root).parent = none) :
+    V w'.f ∧ ∀ x, Desc w'.f root x → (w'.f x).valid = true :=
+  managerGptC_reasks never d k w w' root now m h hi hv hroot
+
+/-- `reasked` (DESIGN): every node fired by a pulse sweep (arbitrary `Pulse` scripts) has no standing request afterwards
+    (`fired_loses_request`) and — if it is still below the root — is ASKED by the next disciplined `GetPulseTimeAux` sweep from
+    that root: a `GetPulseTime` entry for it appears in that sweep's part of the log. -/
+theorem reasked (never d k k2 : Nat) (w w1 w2 : World) (root t now m : Nat)
+    (hi : Inv never w.f) (hv : V w.f)
+    (hp : managerPulse never d k w root t = some w1) (hroot : (w1.f root).parent = none)
+    (hg : managerGptC never d (k2+1) w1 root now = some (w2, m, true)) :
+    ∃ l1 l2, w1.log = w.log ++ l1 ∧ w2.log = w1.log ++ l2 ∧
+      ∀ id s, Event.P id t s ∈ l1 → Desc w2.f root id → ∃ n p r, Event.G id n p r ∈ l2 := by
+  obtain ⟨l1, e1, hf, _⟩ := fired_loses_request never d k w w1 root t hp
+  have i1 : Inv never w1.f := by
+    simp only [managerPulse] at hp
+    split at hp
+    · exact (pulse_inv never d k).1 w w1 root t hi hp
+    · cases hp; exact hi
+  have v1 : V w1.f := by
+    simp only [managerPulse] at hp
+    split at hp
+    · exact (pulse_V never d k).1 _ w w1 root t hv hp
+    · cases hp; exact hv
+  obtain ⟨_, hall⟩ := managerGptC_reasks never d k2 w1 w2 root now m hg i1 v1 hroot
+  have he := (gptC_erase never d (k2+1)).1 w1 w2 root now never m [] true hg
+  obtain ⟨l2, e2, ha⟩ := (gpt_asked never d (k2+1)).1 w1 w2 root now never m he
+  refine ⟨l1, l2, e1, e2, fun id s hm hd => ?_⟩
+  obtain ⟨id', s', he', _, hinv⟩ := hf _ hm
+  cases he'
+  exact ha id hinv (hall id hd)
 
 /-! ## The repaired `GetPulseTimeAux` (finding `C20-lost-invalidate`, fixed)
 
@@ -385,7 +503,13 @@ theorem lost_invalidate_live (never d k : Nat) (w w' : World) (n now mn m : Nat)
 
 /-! ## Fuel
 
-TERMINATION (a measure that bounds the fuel the engine needs by tree size and script lengths) is NOT proved.  What is proved: the
+TERMINATION (a measure that bounds the fuel by tree size and script lengths) is NOT proved.  What it needs and is missing:
+(a) acyclicity of the parent pointers as an invariant (a rank function preserved by attach, which is guarded by `isAnc`): without it
+the recursion of `ReschedulePulseChild` up the parent chain (fuel `d`) has no bound; (b) for the pulse sweep the measure "total
+length of all SCHEDULED lists" — it never grows in a pulse sweep, whatever the scripts do, and every completed `PulseAux` takes its
+node out of a SCHEDULED list — plus the script lengths for the callbacks; (c) for the `GetPulseTimeAux` sweep the number of nodes
+in NEEDSRECALC lists plus the total length of the queued `GetPulseTime` scripts (each callback consumes one script; callbacks
+without a script re-flag nothing).  What is proved: the
 fuel is not part of the semantics — a sweep that completes with fuel `k` completes with exactly the same result with every larger
 fuel, so all theorems above are statements about THE result of a sweep, whichever sufficient fuel is passed.  In the
 correspondence runs the engine (fuel 100000) never runs out (it would print `fuel` and mismatch). -/
@@ -425,5 +549,32 @@ example : ((runOps 1000 8 40 (World.init 1000)
 
 example : ((runOps 1000 8 40 (World.init 1000) [.attach 1 0, .setReq 1 50, .script true 1 [.inval 1 false]]).bind
       fun w => managerGptC 1000 8 40 w 0 10).map (fun r => (r.2.1, r.2.2)) = some (50, false) := by decide +kernel
+
+/-! ### necessity witnesses for the disciplines of the statements that are still partial or conditional -/
+
+/-- `fires_iff_due` needs a discipline on `Pulse` callbacks: nodes 1 and 2 are both due at 50; undisturbed, both fire; when node 2's
+    `Pulse` invalidates its due sibling 1 before 1's turn, node 1 legitimately does not fire in this sweep -/
+example : (runOps 1000 8 40 (World.init 1000)
+      [.attach 1 0, .attach 2 0, .setReq 1 50, .setReq 2 50, .gpt 0 10, .pulse 0 50]).map (·.log) =
+    some [.G 0 10 1000 1000, .G 2 10 1000 50, .G 1 10 1000 50, .P 2 50 50, .P 1 50 50] := by decide +kernel
+
+example : (runOps 1000 8 40 (World.init 1000)
+      [.attach 1 0, .attach 2 0, .setReq 1 50, .setReq 2 50, .gpt 0 10, .script false 2 [.inval 1 false], .pulse 0 50]).map (·.log) =
+    some [.G 0 10 1000 1000, .G 2 10 1000 50, .G 1 10 1000 50, .P 2 50 50] := by decide +kernel
+
+/-- `wakeup_is_min` exactness needs more than the sweep discipline: node 2 answers 30; node 1's `GetPulseTime` then invalidates the
+    already recalculated node 2 and raises its request to 60 (verdict `true`: node 2 is not in progress); the sweep ends settled with
+    root aggregate 50 = the true minimum, but reports the superseded 30 -/
+example : ((runOps 1000 8 40 (World.init 1000)
+      [.attach 1 0, .attach 2 0, .setReq 1 50, .setReq 2 30, .script true 1 [.inval 2 false, .setReq 2 60]]).bind
+      fun w => managerGptC 1000 8 40 w 0 10).map (fun r => (r.2.1, r.2.2, (r.1.f 0).agg, (r.1.f 1).myTime, (r.1.f 2).myTime)) =
+    some (30, true, 50, 50, 60) := by decide +kernel
+
+/-- `all_asked_after_sweep` needs its discipline: a node that invalidates itself in both passes ends the sweep without a standing
+    request (verdict `false`; the repaired code reports wake-up time 0 so that the event loop comes back at once) -/
+example : ((runOps 1000 8 40 (World.init 1000)
+      [.attach 1 0, .setReq 1 50, .script true 1 [.inval 1 false], .script true 1 [.inval 1 false]]).bind
+      fun w => managerGptC 1000 8 40 w 0 10).map (fun r => (r.2.1, r.2.2, (r.1.f 1).valid)) =
+    some (0, false, false) := by decide +kernel
 
 end Muscle.Props.C20
